@@ -18,6 +18,19 @@
 // Main part phases: 1) every history of B batches over K batches, plain and
 // with every single GC(G)@point; 2) every pair of GC events (smaller alphabet,
 // fewer configurations); 3) longer histories over the first batches (see phases).
+//
+// Round 2 (ext_heights_test.go, ext_sync_test.go; main part only): the height
+// of block i is H(i) of a height sequence instead of i - sequences crossing
+// 2^8, 2^16, 2^24, 2^31 and ending at MaxUint32, contiguous and sparse - with
+// GC targets below / at / above every height and inside the gaps, two GC events
+// in any order of targets (decreasing, equal, twice at one point), the module's
+// own height bookkeeping (state root records, local height,
+// GetLatestStateHeight); and histories that start from a state restored node
+// by node through mpt.Billet + Module.JumpToState (state synchronisation)
+// instead of from the empty trie. Inside this file block numbers are ORDINALS
+// (in.height, in.persisted, gcEv.After, indices of maps/canons/repRoots); real
+// heights appear only where the implementation is called (in.H) and in
+// gcEv.G, in.gmax and lastDeact. Development: C11_HEIGHTS=off|only.
 package c11
 
 import (
@@ -130,6 +143,8 @@ type caseRec struct {
 	Names   []string `json:"batches,omitempty"`
 	GC      []gcEv   `json:"gc,omitempty"`
 	Drop    []dropEv `json:"dropped_blocks,omitempty"`
+	Heights []uint32 `json:"heights,omitempty"`      // height of block i (1-based) = Heights[i-1]; absent: 1,2,3,... (ext_heights_test.go)
+	Sync    *syncRec `json:"synced_start,omitempty"` // the history starts from a state restored through mpt.Billet (ext_sync_test.go)
 	Kind    string   `json:"violated,omitempty"`
 	AtBlock int      `json:"at_block,omitempty"`
 	Detail  string   `json:"detail,omitempty"`
@@ -146,7 +161,14 @@ func (c *caseRec) key() string {
 	for _, e := range c.Drop {
 		d = append(d, fmt.Sprintf("drop%d@%d", e.Batch, e.After))
 	}
-	return fmt.Sprintf("%s:%s:%s:%s", c.Cfg, strings.Join(h, "."), strings.Join(g, ","), strings.Join(d, ","))
+	k := fmt.Sprintf("%s:%s:%s:%s", c.Cfg, strings.Join(h, "."), strings.Join(g, ","), strings.Join(d, ","))
+	if c.Heights != nil {
+		k += ":heights=" + heightsString(c.Heights)
+	}
+	if c.Sync != nil {
+		k += ":" + c.Sync.String()
+	}
+	return k
 }
 
 // ---- counters --------------------------------------------------------------------
@@ -161,6 +183,8 @@ type stats struct {
 	reactivated                                    int64 // node re-created while an inactive copy was stored
 	oldOK, oldErr                                  int64 // Get under a non-retained root: correct data / error
 	emptied                                        int64
+	hx                                             hstats // height-sequence families (ext_heights_test.go)
+	sx                                             sstats // synchronised starts (ext_sync_test.go)
 	outcomes                                       map[string]int64
 }
 
@@ -198,6 +222,8 @@ func (s *stats) merge(o *stats) {
 	s.oldOK += o.oldOK
 	s.oldErr += o.oldErr
 	s.emptied += o.emptied
+	s.hx.merge(&o.hx)
+	s.sx.merge(&o.sx)
 	for k, v := range o.outcomes {
 		if s.outcomes == nil {
 			s.outcomes = map[string]int64{}
@@ -247,7 +273,13 @@ type inst struct {
 	mod  *stateroot.Module
 	tr   *mpt.Trie // applier putdel: the current trie
 
+	// height, persisted: ORDINALS of blocks (1 = first block of the history);
+	// the height handed to the implementation for block i is H(i). gmax and
+	// the values of lastDeact are real heights.
 	height, persisted uint32
+	hs                []uint32
+	synced            bool // block 0 is a state restored by state synchronisation at height h0
+	h0                uint32
 	gmax              uint32
 	gcRan             bool
 
@@ -259,8 +291,19 @@ type inst struct {
 	digest    uint64
 }
 
-func newInst(cfg runCfg, st *stats) *inst {
-	in := &inst{cfg: cfg, mode: cfg.trieMode(), st: st, lastDeact: map[h256]uint32{}}
+// H: the real height of the i-th block of the history.
+func (in *inst) H(i uint32) uint32 {
+	if i == 0 {
+		return in.h0
+	}
+	if in.hs == nil {
+		return i
+	}
+	return in.hs[i-1]
+}
+
+func newInst(cfg runCfg, st *stats, hs []uint32) *inst {
+	in := &inst{cfg: cfg, mode: cfg.trieMode(), st: st, lastDeact: map[h256]uint32{}, hs: hs}
 	in.ps = storage.NewMemoryStore()
 	in.dao = storage.NewMemCachedStore(in.ps)
 	in.newModule()
@@ -329,7 +372,8 @@ func (in *inst) collapseDepth() int {
 // commit applies b as the next block.
 func (in *inst) commit(b batch) (kind, detail string) {
 	h := in.height + 1
-	cache, tr, root, err := in.compute(b, h)
+	H := in.H(h)
+	cache, tr, root, err := in.compute(b, H)
 	if err != nil {
 		return "apply-error", err.Error()
 	}
@@ -340,15 +384,15 @@ func (in *inst) commit(b batch) (kind, detail string) {
 	in.dao.PersistPrivate(cache)
 	tr.Store = in.dao
 	if in.cfg.Applier == "batch" {
-		in.mod.UpdateCurrentLocal(tr, &state.MPTRoot{Index: h, Root: root})
+		in.mod.UpdateCurrentLocal(tr, &state.MPTRoot{Index: H, Root: root})
 	} else {
 		in.tr = tr
 	}
 	in.height = h
 	in.st.blocks++
 	if in.cfg.Applier == "batch" {
-		if got := in.mod.CurrentLocalStateRoot(); got != root || in.mod.CurrentLocalHeight() != h {
-			return "current-local-state-root-wrong", fmt.Sprintf("after block %d: module reports root %s at height %d, AddMPTBatch returned %s", h, got.StringBE(), in.mod.CurrentLocalHeight(), root.StringBE())
+		if got := in.mod.CurrentLocalStateRoot(); got != root || in.mod.CurrentLocalHeight() != H {
+			return "current-local-state-root-wrong", fmt.Sprintf("after block %d: module reports root %s at height %d, AddMPTBatch returned %s", H, got.StringBE(), in.mod.CurrentLocalHeight(), root.StringBE())
 		}
 	}
 
@@ -369,7 +413,7 @@ func (in *inst) commit(b batch) (kind, detail string) {
 	pc := in.canons[h-1]
 	for x := range pc.mult {
 		if _, ok := c.mult[x]; !ok {
-			in.lastDeact[x] = h
+			in.lastDeact[x] = H
 		}
 	}
 	if in.mode.GC() {
@@ -392,14 +436,14 @@ func (in *inst) commit(b batch) (kind, detail string) {
 		want = util.Uint256(c.root)
 	}
 	if root != want {
-		return "state-root-differs-from-reference", fmt.Sprintf("height %d: got %s, the trie of %s has root %s", h, root.StringBE(), mapString(m), want.StringBE())
+		return "state-root-differs-from-reference", fmt.Sprintf("height %d: got %s, the trie of %s has root %s", H, root.StringBE(), mapString(m), want.StringBE())
 	}
 	return "", ""
 }
 
 // drop computes a block and throws the result away (block computed, never committed).
 func (in *inst) drop(b batch) (kind, detail string) {
-	_, _, _, err := in.compute(b, in.height+1)
+	_, _, _, err := in.compute(b, in.H(in.height+1))
 	in.st.dropped++
 	if err != nil {
 		return "apply-error-in-dropped-block", err.Error()
@@ -418,11 +462,11 @@ func (in *inst) persist() (kind, detail string) {
 		in.st.restarts++
 		if in.cfg.Applier == "batch" {
 			in.newModule()
-			if err := in.mod.Init(in.height); err != nil {
+			if err := in.mod.Init(in.H(in.height)); err != nil {
 				return "init-error-after-restart", err.Error()
 			}
-			if got := in.mod.CurrentLocalStateRoot(); got != in.repRoots[in.height] || in.mod.CurrentLocalHeight() != in.height {
-				return "current-local-state-root-wrong", fmt.Sprintf("after restart at %d: module reports root %s at height %d", in.height, got.StringBE(), in.mod.CurrentLocalHeight())
+			if got := in.mod.CurrentLocalStateRoot(); got != in.repRoots[in.height] || in.mod.CurrentLocalHeight() != in.H(in.height) {
+				return "current-local-state-root-wrong", fmt.Sprintf("after restart at %d: module reports root %s at height %d", in.H(in.height), got.StringBE(), in.mod.CurrentLocalHeight())
 			}
 		} else {
 			in.tr = mpt.NewTrie(mpt.NewHashNode(in.repRoots[in.height]), in.mode, in.dao)
@@ -448,6 +492,9 @@ func (in *inst) gc(g uint32) (removed int) {
 		in.st.gcNoop++
 		in.st.oc("gc:removed-none")
 	}
+	if in.hs != nil {
+		in.noteHeightGC(g, before-after)
+	}
 	if g > in.gmax {
 		in.gmax = g
 	}
@@ -465,7 +512,7 @@ func (in *inst) retained(r uint32) bool {
 	case "latest":
 		return r == in.height
 	case "gc":
-		return r >= in.gmax
+		return in.H(r) >= in.gmax
 	}
 	return true
 }
@@ -495,6 +542,9 @@ func (in *inst) check() (kind, detail string) {
 		return "bad-key", bad
 	}
 	fmt.Fprintf(fh, "|%s|%d|%d", in.cfg, h, in.gmax)
+	if in.hs != nil {
+		fmt.Fprintf(fh, "|H%d", in.H(h))
+	}
 	in.digest = fh.Sum64()
 	st.nodesDecoded += int64(len(db))
 	hs := make([]h256, 0, len(db)) // fixed order: the first problem reported is always the same one
@@ -510,11 +560,12 @@ func (in *inst) check() (kind, detail string) {
 
 	// (1) the latest root walks completely, through active nodes only.
 	latest := in.canons[h]
+	Hh := in.H(h) // real height of the latest block (messages)
 	cnt := map[h256]int{}
 	leaves := map[string][]byte{}
 	if !latest.empty {
 		if e := walkRaw(db, latest.root, nil, in.mode.GC(), cnt, leaves, 0); e != nil {
-			return e.kind, fmt.Sprintf("latest root (height %d): %v", h, e)
+			return e.kind, fmt.Sprintf("latest root (height %d): %v", Hh, e)
 		}
 		st.rootsWalked++
 	}
@@ -545,16 +596,19 @@ func (in *inst) check() (kind, detail string) {
 			c := cnt[x]
 			switch {
 			case s.active && c == 0:
-				return "stray-active-node", fmt.Sprintf("node %s (type %d, count %d) is stored active but is not reachable from the latest root of height %d; last dereferenced at %d", x.short(), s.node.typ, s.num, h, in.lastDeact[x])
+				return "stray-active-node", fmt.Sprintf("node %s (type %d, count %d) is stored active but is not reachable from the latest root of height %d; last dereferenced at %d", x.short(), s.node.typ, s.num, Hh, in.lastDeact[x])
 			case s.active:
 				st.activeChecked++
 				if int(s.num) != c {
-					return "refcount-mismatch", fmt.Sprintf("node %s (type %d) stored count %d, occurs %d times in the trie of height %d", x.short(), s.node.typ, s.num, c, h)
+					return "refcount-mismatch", fmt.Sprintf("node %s (type %d) stored count %d, occurs %d times in the trie of height %d", x.short(), s.node.typ, s.num, c, Hh)
 				}
 			case !in.mode.GC():
 				return "inactive-node-without-gc", fmt.Sprintf("node %s has the inactive flag in mode %s", x.short(), in.cfg.Mode)
 			default:
 				st.inactiveChecked++
+				if in.hs != nil {
+					st.hx.noteInactive(s.num)
+				}
 				want, ok := in.lastDeact[x]
 				if !ok {
 					return "inactive-node-never-referenced", fmt.Sprintf("node %s", x.short())
@@ -570,31 +624,37 @@ func (in *inst) check() (kind, detail string) {
 	}
 
 	// (4)+(5) every root: raw walk if retained, API reads always.
-	for r := uint32(1); r <= h; r++ {
+	for r := in.first(); r <= h; r++ {
 		c := in.canons[r]
+		Hr := in.H(r)
 		ret := in.retained(r)
 		var root util.Uint256
 		if !c.empty {
 			root = util.Uint256(c.root)
 		}
 		if in.cfg.Applier == "batch" {
-			sr, err := in.mod.GetStateRoot(r)
+			sr, err := in.mod.GetStateRoot(Hr)
 			if err != nil {
-				return "state-root-record-missing", fmt.Sprintf("height %d: %v", r, err)
+				return "state-root-record-missing", fmt.Sprintf("height %d: %v", Hr, err)
 			}
 			if sr.Root != root {
-				return "state-root-record-wrong", fmt.Sprintf("height %d: %s, want %s", r, sr.Root.StringBE(), root.StringBE())
+				return "state-root-record-wrong", fmt.Sprintf("height %d: %s, want %s", Hr, sr.Root.StringBE(), root.StringBE())
+			}
+			if in.hs != nil {
+				if kind, detail := in.checkHeightRecords(r, sr.Index, root); kind != "" {
+					return kind, detail
+				}
 			}
 		}
 		if ret && r != h && !c.empty {
 			cn := map[h256]int{}
 			lv := map[string][]byte{}
 			if e := walkRaw(db, c.root, nil, false, cn, lv, 0); e != nil {
-				return "retained-root-" + e.kind, fmt.Sprintf("root of height %d (latest %d, collected up to %d): %v", r, h, in.gmax, e)
+				return "retained-root-" + e.kind, fmt.Sprintf("root of height %d (latest %d, collected up to %d): %v", Hr, Hh, in.gmax, e)
 			}
 			st.rootsWalked++
 			if d := diffLeaves(lv, in.maps[r]); d != "" {
-				return "retained-root-holds-wrong-data", fmt.Sprintf("height %d: %s", r, d)
+				return "retained-root-holds-wrong-data", fmt.Sprintf("height %d: %s", Hr, d)
 			}
 		}
 		tag := "retained"
@@ -608,14 +668,14 @@ func (in *inst) check() (kind, detail string) {
 			want, has := in.maps[r][k]
 			if err == nil {
 				if !has || !bytes.Equal(v, want) {
-					return "get-returns-wrong-data-" + tag, fmt.Sprintf("GetState(root of height %d, key %s) = %x, that state had %x (present=%v); latest %d, collected up to %d", r, kn, v, want, has, h, in.gmax)
+					return "get-returns-wrong-data-" + tag, fmt.Sprintf("GetState(root of height %d, key %s) = %x, that state had %x (present=%v); latest %d, collected up to %d", Hr, kn, v, want, has, Hh, in.gmax)
 				}
 				if !ret {
 					st.oldOK++
 				}
 			} else {
 				if ret && has {
-					return "get-fails-on-retained-root", fmt.Sprintf("GetState(root of height %d, key %s): %v; latest %d, collected up to %d", r, kn, err, h, in.gmax)
+					return "get-fails-on-retained-root", fmt.Sprintf("GetState(root of height %d, key %s): %v; latest %d, collected up to %d", Hr, kn, err, Hh, in.gmax)
 				}
 				if !ret && has {
 					st.oldErr++
@@ -633,10 +693,10 @@ func (in *inst) check() (kind, detail string) {
 			}
 			if err == nil {
 				if !sameKVs(res, want) {
-					return "find-returns-wrong-data-" + tag, fmt.Sprintf("FindStates(root of height %d, prefix %x) = %s, that state had %s", r, p, kvString(res), kvString(want))
+					return "find-returns-wrong-data-" + tag, fmt.Sprintf("FindStates(root of height %d, prefix %x) = %s, that state had %s", Hr, p, kvString(res), kvString(want))
 				}
 			} else if ret && len(want) > 0 {
-				return "find-fails-on-retained-root", fmt.Sprintf("FindStates(root of height %d, prefix %x): %v", r, p, err)
+				return "find-fails-on-retained-root", fmt.Sprintf("FindStates(root of height %d, prefix %x): %v", Hr, p, err)
 			}
 		}
 		// SeekStates has no error result: under a root whose start node is gone
@@ -654,12 +714,12 @@ func (in *inst) check() (kind, detail string) {
 				}
 			}
 			if !sameKVs(res, want) && (ret || len(res) != 0) {
-				return "seek-returns-wrong-data-" + tag, fmt.Sprintf("SeekStates(root of height %d, prefix %x) = %s, that state had %s; latest %d, collected up to %d", r, p, kvString(res), kvString(want), h, in.gmax)
+				return "seek-returns-wrong-data-" + tag, fmt.Sprintf("SeekStates(root of height %d, prefix %x) = %s, that state had %s; latest %d, collected up to %d", Hr, p, kvString(res), kvString(want), Hh, in.gmax)
 			}
 		}
 		// Proofs: under the root before the latest one, the oldest retained
 		// root and the newest collected one.
-		if r+1 == h || r == in.gmax || r+1 == in.gmax {
+		if r+1 == h || in.gcEdge(r) {
 			for _, kn := range keyOrder {
 				k := keys[kn]
 				st.proofs++
@@ -667,13 +727,13 @@ func (in *inst) check() (kind, detail string) {
 				proof, err := in.mod.GetStateProof(root, []byte(k))
 				if err != nil {
 					if ret && has {
-						return "proof-fails-on-retained-root", fmt.Sprintf("GetStateProof(root of height %d, key %s): %v; latest %d, collected up to %d", r, kn, err, h, in.gmax)
+						return "proof-fails-on-retained-root", fmt.Sprintf("GetStateProof(root of height %d, key %s): %v; latest %d, collected up to %d", Hr, kn, err, Hh, in.gmax)
 					}
 					continue
 				}
 				v, ok := mpt.VerifyProof(root, []byte(k), proof)
 				if !ok || !has || !bytes.Equal(v, want) {
-					return "proof-returns-wrong-data-" + tag, fmt.Sprintf("GetStateProof(root of height %d, key %s): %d nodes, verifies=%v value %x, that state had %x (present=%v)", r, kn, len(proof), ok, v, want, has)
+					return "proof-returns-wrong-data-" + tag, fmt.Sprintf("GetStateProof(root of height %d, key %s): %d nodes, verifies=%v value %x, that state had %x (present=%v)", Hr, kn, len(proof), ok, v, want, has)
 				}
 			}
 		}
@@ -739,7 +799,15 @@ func runCase(c *caseRec, st *stats, checkFrom int, checkAll bool, states *u64set
 			kind, detail = "panic", fmt.Sprint(p)
 		}
 	}()
-	in := newInst(c.Cfg, st)
+	if c.Heights != nil && len(c.Heights) < len(c.Hist) {
+		return "harness-bad-case", "fewer heights than blocks", 0
+	}
+	in := newInst(c.Cfg, st, c.Heights)
+	if c.Sync != nil {
+		if kind, detail = in.syncStart(c.Sync); kind != "" {
+			return
+		}
+	}
 	n := len(c.Hist)
 	judge := func(i int) bool {
 		if i < checkFrom {
@@ -774,7 +842,7 @@ func runCase(c *caseRec, st *stats, checkFrom int, checkAll bool, states *u64set
 		}
 		for _, g := range c.GC {
 			if g.After == i {
-				if g.G > in.persisted {
+				if g.G > in.H(in.persisted) {
 					panic("harness: GC above the persisted height")
 				}
 				if in.gc(g.G) == 0 && !checkAll {
@@ -909,6 +977,11 @@ func TestCheck(t *testing.T) {
 		k0, k1 int
 		K, B   int
 		pairs  bool
+		// height-sequence families (ext_heights_test.go)
+		hs   *hseq
+		pm   planMode
+		fam  string
+		sync *syncRec
 	}
 	var jobs []job
 	for _, ph := range phases {
@@ -919,16 +992,11 @@ func TestCheck(t *testing.T) {
 		for _, c := range cc {
 			for k0 := 0; k0 < ph.K; k0++ {
 				for k1 := 0; k1 < ph.K; k1++ {
-					jobs = append(jobs, job{c, k0, k1, ph.K, ph.B, ph.Pairs})
+					jobs = append(jobs, job{cfg: c, k0: k0, k1: k1, K: ph.K, B: ph.B, pairs: ph.Pairs})
 				}
 			}
 		}
 	}
-	// Simplest first, all configurations side by side: if the deadline stops the
-	// run, what is missing are the histories starting with the later batches.
-	sort.SliceStable(jobs, func(a, b int) bool {
-		return max(jobs[a].k0, jobs[a].k1) < max(jobs[b].k0, jobs[b].k1)
-	})
 	surveyKinds := map[string]int{}
 	surveyFirst := map[string]*caseRec{}
 	report := func(c *caseRec, kind, detail string, at int) {
@@ -954,6 +1022,49 @@ func TestCheck(t *testing.T) {
 		}
 		r.Violation(kind+":"+c.key(), c)
 	}
+	var hphases []hphase
+	var orderCases int
+	if !dropped && os.Getenv("C11_HEIGHTS") != "off" {
+		hphases = heightPhases(r, cfgs2)
+		// Synchronised starts: first the restored stores alone (every state x
+		// delivery order x mode), then the histories on top of them.
+		var st stats
+		var same bool
+		orderCases, same = restoreOrders(r.Thorough(), &st, report)
+		total.merge(&st)
+		cases += int64(orderCases)
+		hphases = append(hphases, syncPhases(r.Thorough(), same)...)
+	}
+	if os.Getenv("C11_HEIGHTS") == "only" { // development aid
+		jobs = nil
+	}
+	for _, hp := range hphases {
+		for si := range hp.Seqs {
+			syncs := []*syncRec{nil}
+			if len(hp.Syncs) > 0 {
+				syncs = nil
+				for i := range hp.Syncs {
+					if hp.Syncs[i].At+1 == hp.Seqs[si].H[0] {
+						syncs = append(syncs, &hp.Syncs[i])
+					}
+				}
+			}
+			for _, sy := range syncs {
+				for _, c := range hp.Cfgs {
+					for k0 := 0; k0 < hp.K; k0++ {
+						for k1 := 0; k1 < hp.K; k1++ {
+							jobs = append(jobs, job{cfg: c, k0: k0, k1: k1, K: hp.K, B: hp.B, pairs: hp.Plan != planSingle, hs: &hp.Seqs[si], pm: hp.Plan, fam: hp.Fam, sync: sy})
+						}
+					}
+				}
+			}
+		}
+	}
+	// Simplest first, all configurations side by side: if the deadline stops the
+	// run, what is missing are the histories starting with the later batches.
+	sort.SliceStable(jobs, func(a, b int) bool {
+		return max(jobs[a].k0, jobs[a].k1) < max(jobs[b].k0, jobs[b].k1)
+	})
 	r.Parallel(len(jobs), func(ji int) {
 		j := jobs[ji]
 		var st stats
@@ -962,8 +1073,20 @@ func TestCheck(t *testing.T) {
 		hist := make([]int, B)
 		hist[0], hist[1] = j.k0, j.k1
 		plans := [][]gcEv(nil)
+		var heights []uint32
+		if j.hs != nil {
+			heights = j.hs.H[:B]
+		}
+		var h0 uint32
+		if j.sync != nil {
+			h0 = j.sync.At
+		}
 		if j.cfg.Mode == "gc" && !dropped {
-			plans = gcPlans(B, j.cfg.Persist, j.pairs)
+			if j.hs != nil {
+				plans = gcPlansH(heights, B, j.cfg.Persist, j.pm, r.Thorough(), h0)
+			} else {
+				plans = gcPlans(B, j.cfg.Persist, j.pairs)
+			}
 		}
 		var rec func(pos int)
 		rec = func(pos int) {
@@ -993,8 +1116,11 @@ func TestCheck(t *testing.T) {
 				return
 			}
 			if !j.pairs {
-				c := &caseRec{Cfg: j.cfg, Hist: append([]int{}, hist...)}
+				c := &caseRec{Cfg: j.cfg, Hist: append([]int{}, hist...), Heights: heights, Sync: j.sync}
 				nc++
+				if j.hs != nil {
+					st.hx.countCase(j.fam, j.hs.Name, false)
+				}
 				if nc%64 == 1 {
 					c.Names = names(c.Hist)
 					r.Sample(*c)
@@ -1005,9 +1131,12 @@ func TestCheck(t *testing.T) {
 				}
 			}
 			for _, p := range plans {
-				c := &caseRec{Cfg: j.cfg, Hist: append([]int{}, hist...), GC: p}
+				c := &caseRec{Cfg: j.cfg, Hist: append([]int{}, hist...), GC: p, Heights: heights, Sync: j.sync}
 				nc++
 				ng++
+				if j.hs != nil {
+					st.hx.countCase(j.fam, j.hs.Name, true)
+				}
 				if nc%64 == 1 {
 					c.Names = names(c.Hist)
 					r.Sample(*c)
@@ -1050,11 +1179,11 @@ func TestCheck(t *testing.T) {
 		maxB = max(maxB, ph.B)
 	}
 	transitions := total.blocks + total.dropped + total.persists + total.gcs
-	r.Finish(map[string]any{
+	cov := map[string]any{
 		"states":                                states.len(),
 		"transitions":                           int(transitions),
 		"traces_validated_against_impl":         int(cases),
-		"rule":                                  "every history of B batches over the first K batches of the alphabet (phases: K, B, single GC events or pairs), in every configuration (mode/persist period/collapse depth or restart/applier), plus for mode gc every GC(G) event (G <= persisted height) at every point; a state = digest of the raw DataMPT content + configuration + height + collected-up-to",
+		"rule":                                  "every history of B batches over the first K batches of the alphabet (phases: K, B, single GC events or pairs), in every configuration (mode/persist period/collapse depth or restart/applier), plus for mode gc every GC(G) event (G <= persisted height) at every point; the same at the heights of every height sequence (height_families) and on top of every state restored through mpt.Billet (synced-start); a state = digest of the raw DataMPT content + configuration + height + collected-up-to",
 		"phases_K_B_gcpairs":                    fmt.Sprint(phases),
 		"alphabet_batches_K":                    K,
 		"blocks_per_history_B_max":              maxB,
@@ -1091,13 +1220,18 @@ func TestCheck(t *testing.T) {
 		"find_calls":                            int(total.finds),
 		"old_root_get_correct":                  int(total.oldOK),
 		"old_root_get_error":                    int(total.oldErr),
-	}, []string{
+	}
+	heightCoverage(cov, hphases, &total.hx)
+	syncCoverage(cov, hphases, &total.sx, orderCases)
+	r.Finish(cov, []string{
 		"retained roots: ModeLatest the latest only; ModeGC every height >= the highest G collected so far; ModeAll all",
 		"GC(G) is only issued with G <= persisted height (Blockchain.tryRunGC uses persisted height - MaxTraceableBlocks) and acts on the backing store while later blocks may still sit in the cache layer",
 		"a GC run that deletes nothing has no other effect (Module.GC only reads and deletes), so such a case is judged once right after the GC and not continued: its continuation is the case without that event",
 		"a node restart is not performed while the state is empty (a real chain never has an empty state after genesis; Init would give an unusable zero HashNode root)",
 		"Find is exercised with nil start only (its from/maxNum semantics belong to C10)",
 		"the search runs on the implementation itself: every transition is a call into pkg/core/mpt / pkg/core/stateroot / pkg/core/storage",
+		"height-sequence families: block i of a history is applied at height H(i) of an increasing sequence (AddMPTBatch/Flush/UpdateCurrentLocal/Init get H(i)); a state is retained after GC(G) iff its own height H(r) >= G (in a gap of a sparse sequence nothing more is demanded); GC targets stay <= H(persisted block)",
+		"a second GC with a target not above an earlier one is judged by the same oracle under the highest target so far",
 	})
 }
 
